@@ -288,7 +288,10 @@ structure Good (pid : Option Nat) (l : List (Pkt × Wire)) : Prop where
   head : ∀ a, l.head? = some a → pktDup a.1 = false
   fin : l.Pairwise (fun a _ => ¬ okRel a)
 
-def Fresh (pid : Option Nat) (l : List (Pkt × Wire)) : Prop := pid = none ∧ l = []
+/-- no attempt yet. The identifier may already be set: the caller may have put one on the message
+    before Publish (`Message.ID ≠ 0`, see Proofs/RetryPreset); from `init s` it is `none` until the
+    first attempt (`Mqtt.C15.Preset.fresh_ids_untouched`). -/
+def Fresh (_pid : Option Nat) (l : List (Pkt × Wire)) : Prop := l = []
 
 /-- only PUBLISH attempts so far, all with QoS `q` and identifier `i` -/
 def Pubd (q i : Nat) (pid : Option Nat) (l : List (Pkt × Wire)) : Prop :=
@@ -811,7 +814,7 @@ theorem pubAttempt_inv {w : World} {fr : List (Nat × Nat)} {es : List Entry} {k
     exact sameView_send_other hs.pid hs.pkts (about_publish_ne q i d hm')
   have hg : Good (lookupPid w2 m) (msgPkts w2 m) ∧ Pubd q i (lookupPid w2 m) (msgPkts w2 m) := by
     rw [hpid2, hview2]
-    rcases hpre with ⟨hd, hf1, hf2⟩ | ⟨hd, hq, i0, hp⟩
+    rcases hpre with ⟨hd, hf2⟩ | ⟨hd, hq, i0, hp⟩
     · subst hd; rw [hf2]; exact good_first_pub m q i x
     · subst hd
       have hi : i0 = i := by
@@ -2057,7 +2060,7 @@ theorem foldl_inv (evs : List Ev) : ∀ w : World, Inv12 w → (pubMsgs evs).Nod
 
 theorem init_inv (s : Script) : Inv12 (init s) := by
   refine ⟨?_, fun m => good_nil _, List.nodup_nil, ?_, ?_, List.nodup_nil,
-    fun m _ => ⟨rfl, rfl⟩, ?_⟩
+    fun m _ => rfl, ?_⟩
   · intro k hk; cases hk
   · intro mq h; cases h
   · intro e h; cases h
